@@ -75,6 +75,28 @@ def run(res: C.Result):
                 res.fail(f"simulation:{sname}:error", f"first import {m}: {sname} cannot be rebuilt from its dictionary: {e[:300]}", {"input": dict(req, cls=sname), "observed": rec})
             for df in rec.get("diffs") or []:
                 res.fail(f"simulation:{sname}:{df[0]}", f"first import {m}: {sname} setting {df[0]} not preserved: {df[1]} -> {df[2]}", {"input": dict(req, cls=sname), "observed": df})
+    # ---- a restart / analysis script imports ONE public module and rebuilds documents by their registered names, importing nothing else by hand:
+    #   quansino.mc (needed to name the simulation class) -> every document; quansino.moves -> every move, operation and integrator document;
+    #   quansino.operations -> operations; quansino.integrators -> integrators
+    docs = next((o.get("documents") for o in outs if o.get("documents")), None)
+    if docs:
+        by = lambda *ps: {k: v for k, v in docs.items() if v["proto"] in ps}
+        plans = [("quansino.mc", docs), ("quansino.moves", by("Move", "Operation", "Integrator")), ("quansino.operations", by("Operation")), ("quansino.integrators", by("Integrator"))]
+        plans += [(m, docs) for m in modules if m.startswith("quansino.mc.")][:: (3 if quick else 1)]
+        mreqs = [{"first_import": m, "rebuild_only": dd} for m, dd in plans if dd]
+        with ThreadPoolExecutor(max_workers=16) as ex:
+            mouts = list(ex.map(fresh, mreqs))
+        dist["single_import_rebuilds"] = 0
+        for req, o in zip(mreqs, mouts):
+            m = req["first_import"]
+            if "crash" in o or o.get("import_error"):
+                res.fail(f"import:{m}", f"a fresh interpreter whose only import is {m}: {(o.get('crash') or o.get('import_error'))[-300:]}", {"input": {"first_import": m}})
+                continue
+            for key, rec in (o.get("rebuilt") or {}).items():
+                dist["single_import_rebuilds"] += 1
+                if rec.get("error") or rec.get("diff"):
+                    res.fail(f"single-import:{m}:{key}", f"a fresh interpreter imports only {m} and rebuilds a {key} document by its registered name: "
+                             f"{rec.get('error') or 'the rebuilt object serialises to another dictionary'}", {"input": {"first_import": m, "rebuild_only": {key: req['rebuild_only'][key]}}, "observed": rec})
     # name the class / module behind a failed regenerated obligation
     if not ok and d:
         bad = [c["name"] for c in d["classes"] if not (c["registered"] and set(c["params"]) <= set(c["emit_kwargs"]) and set(c["emit_kwargs"]) <= set(c["params"])
@@ -92,7 +114,9 @@ def run(res: C.Result):
         direct_oracle={"evaluations": dist["round_trips"] + dist["simulation_round_trips"], "failures": len(res.failures)}, input_distribution=dist)
     res.samples += [{"first_import": outs[0].get("first_import"), "classes": sorted(outs[0].get("classes", {}))[:8], "registered": outs[0].get("registered", [])[:10]}]
     res.assumptions += ["concrete = the protocol's main method (calculate / integrate / evaluate / __call__) is implemented below the Base* class; Base*, DisplacementOperation and DeformationOperation are abstract in spirit",
-                        "after the first import the other modules are imported as a user who builds those objects would; the registry is then required to resolve every emitted name",
+                        "after the first import the other modules are imported as a user who builds those objects would; the registry is then required to resolve every emitted name; "
+                        "in addition, with quansino.mc (or any of its submodules) as the ONLY import every document must rebuild, with quansino.moves every move / operation / integrator document, "
+                        "with quansino.operations / quansino.integrators their own documents (what holds on the pinned tree; a class's own package registers what its documents nest)",
                         "callables (distribution, check_move) are excepted, as the property says"]
 
 
